@@ -45,7 +45,7 @@ Lemma body_bs_roundtrip : forall esc q s rest, Ascii.eqb q bslash = false -> no_
   body_bs esc q (double_char q s ++ String q rest) = Some (s, rest).
 Proof.
   intros esc q s rest Hq Hs Hr. induction s as [|a s IH].
-  - cbn. rewrite Hq, Ascii.eqb_refl. destruct rest as [|b r']; [reflexivity|].
+  - cbn [double_char append body_bs]. rewrite Hq, Ascii.eqb_refl. destruct rest as [|b r']; [reflexivity|].
     cbn in Hr. rewrite Hr. reflexivity.
   - cbn [no_bslash] in Hs. apply andb_prop in Hs. destruct Hs as [Ha Hs]. apply negb_true_iff in Ha.
     cbn [double_char]. destruct (Ascii.eqb a q) eqn:E.
@@ -71,7 +71,7 @@ Proof. intros esc. reflexivity. Qed.
 Theorem bs_swallows_tail : forall esc,
   read_bs esc squote (fmt_str squote one_bslash ++ " OR b='y'")
   = Some (esc squote ++ " OR b=", "y'").
-Proof. intros esc. cbn. rewrite app_nil_r_s. reflexivity. Qed.
+Proof. intros esc. reflexivity. Qed.
 
 (* a backslash that leaves the structure intact still changes the value (MySQL table: \n is a line feed) *)
 Theorem bs_decodes_differently :
